@@ -18,6 +18,6 @@ def corrupt(e):
 
 
 def run(ctx, replay):
-    subsys.run(ctx, "C19", replay, "Allegation", MC, ["alleg"], TRACE, corrupt,
+    subsys.run(ctx, "C19", replay, "Allegation", MC, ["alleg", "allegset"], TRACE, corrupt,
                "seeded histories with four active validators: allegations and votes by validators and by outsiders, duplicate votes, concurrent allegations (also against the same accused), releases, staking transactions on frozen validators, absent signers (missed-vote freezes) and month-long block-time jumps around the release time; one evaluation = one block whose transactions TLC applies with the specification's guards and whose tally it re-computes with exact rationals",
                extra_mc=[MC2])
